@@ -48,6 +48,7 @@ def gen_case(rng):
         genes.append({"name": f"g{i}", "loc": {"parts": [[i * step + 10, i * step + 10 + glen]], "strand": rng.choice([1, -1])},
                       "core": []})
     protos = []
+    origin_focus = circular and rng.random() < 0.3
     for j in range(rng.randrange(1, 8)):
         if protos and rng.random() < 0.2:
             base = rng.choice(protos)          # identical or nested coordinates
@@ -58,6 +59,10 @@ def gen_case(rng):
             ncore = rng.randrange(1, 5)
             first = rng.randrange(0, n_genes) if circular else rng.randrange(0, n_genes - ncore + 1)
             nb = rng.choice([0, 1, 2, 3])
+            if origin_focus and rng.random() < 0.7:
+                # several cores through the origin: wide and narrow ones, nested in each other
+                ncore = rng.randrange(2, 6)
+                first = n_genes - rng.randrange(1, ncore)
         product = rng.choice(products) + str(j)
         core_genes = [(first + k) % n_genes for k in range(ncore)]
         if not circular and first + ncore > n_genes:
@@ -282,6 +287,20 @@ def check_record(ctx, case, record, protos):
                 if len(comp) == 1 and not ring.covers(span_ivs, ring.parts_of(comp[0].core_location)):
                     ctx.violate("hybrid-extra-member-core-inside-group-core",
                                 dict(facts, extra=comp[0].product, promotion_shape=promotion_shape(c, wrap, length)), case)
+            # ... and the other way round: a protocluster sharing no defining gene with anything, whose core lies
+            # inside the core span of this hybrid's gene-sharing group, belongs to a chemical hybrid (this one or
+            # another whose span also holds it)
+            if len(big) == 1 and not (wrap and 2 * span[1] >= length):
+                ctx.count("op:hybrid-completeness")
+                for other in plist:
+                    if any(other is m for m in members) or any(shares(other, q) for q in plist if q is not other):
+                        continue
+                    if ring.covers(span_ivs, ring.parts_of(other.core_location)) \
+                            and not any(h.kind == K.CHEMICAL_HYBRID and any(other is m for m in h.protoclusters) for h in cands):
+                        ctx.violate("core-inside-hybrid-core-span-implies-hybrid-member",
+                                    dict(facts, left_out=other.product, left_out_core=str(other.core_location),
+                                         left_out_core_crosses_origin=len(other.core_location.parts) > 1,
+                                         hybrid_core_crosses_origin=len(span_ivs) > 1), case)
         elif c.kind == K.INTERLEAVED:
             comps = components(members, lambda a, b: ov(a.core_location, b.core_location) or shares(a, b))
             if len(comps) > 1:
